@@ -1293,15 +1293,15 @@ pub fn build_cases(e: &Env) -> Result<Vec<Case>, String> {
     }
     // the bracket instructions themselves
     {
-        let rem = obs(e, &base, &start.accounts[4..], "risk", Some(d), &[]);
+        let rem = obs(e, &base, &start.accounts[4..], "risk", Some(d), &[B_DCOL]); // maintenance health: every position's price is needed
         mk.add("start_liquidation", "normal", &base, vec![], start.clone(), vec![end.clone()], false, Cx { u: U_D, ..cx0 }, rem, none, true);
-        let rem = obs(e, &base, &end.accounts[6..], "risk", Some(d), &[]);
+        let rem = obs(e, &base, &end.accounts[6..], "risk", Some(d), &[B_DCOL]); // maintenance health: every position's price is needed
         mk.add("end_liquidation", "normal", &base, vec![start.clone()], end.clone(), vec![], false, Cx { u: U_D, ..cx0 }, rem, none, true);
         let sd = m.ix_start_deleverage(d, r.risk);
         let ed = m.ix_end_deleverage(d, r.risk, m.risk_metas(&d, None, None));
-        let rem = obs(e, &base, &sd.accounts[5..], "risk", Some(d), &[]);
+        let rem = obs(e, &base, &sd.accounts[5..], "risk", Some(d), &[B_DCOL]); // maintenance health: every position's price is needed
         mk.add("start_deleverage", "normal", &base, vec![], sd.clone(), vec![ed.clone()], false, Cx { u: U_D, ..cx0 }, rem, none, true);
-        let rem = obs(e, &base, &ed.accounts[4..], "risk", Some(d), &[]);
+        let rem = obs(e, &base, &ed.accounts[4..], "risk", Some(d), &[B_DCOL]); // maintenance health: every position's price is needed
         mk.add("end_deleverage", "normal", &base, vec![sd], ed, vec![], false, Cx { u: U_D, ..cx0 }, rem, none, true);
     }
 
@@ -1408,7 +1408,9 @@ pub fn build_cases(e: &Env) -> Result<Vec<Case>, String> {
         let x = w.ix_bankruptcy(B_LIAB, d, r.risk);
         let n = 8 + mint_rem(e, B_LIAB).len();
         let mut rem = mint_rem(e, B_LIAB);
-        rem.extend(obs(e, &vm, &x.accounts[n..], "risk", Some(d), &[]));
+        // a bankruptcy assessment values EVERY position (unweighted assets against liabilities): the collateral bank's
+        // oracle is needed too
+        rem.extend(obs(e, &vm, &x.accounts[n..], "risk", Some(d), &[B_DCOL]));
         mk.add("lending_pool_handle_bankruptcy", "normal", &vm, vec![], x, vec![], false, Cx { b: B_LIAB, u: U_D, ..cx0 }, rem, none, true);
     }
     // deleveraging mode: tokenless repayments allowed -> complete -> purge
